@@ -19,6 +19,11 @@ VERUS_UNITS = {
         "configs": {"quick": [("std", ["std", "alloc", "half"])],
                     "thorough": [("std", ["std", "alloc", "half"])]},
     },
+    "lemmas": {
+        "path": "units/verus/lemmas.vx",
+        "props": ["C01", "C03"],
+        "configs": {"quick": [("spec", ["std", "alloc", "half"])], "thorough": [("spec", ["std", "alloc", "half"])]},
+    },
     "io": {
         "path": "units/verus/io.vx",
         "props": ["C14"],
